@@ -305,6 +305,10 @@ def image_rows_witness(t: Term) -> Optional[str]:
                 env[c_] = Hm if c_[2] == "hmatrix" else np.diag(Hm).copy()
             for v in free:
                 env[v] = 1
+            # rows picked through a neighbour table / file: any set of other particles
+            for x in walk(t):
+                if x[0] == "sub" and x[2] not in env and any(y[0] == "call" and isinstance(y[1], str) and (y[1].startswith("PyMatterSim.") or y[1] == "builtins.open") for y in walk(x[2])):
+                    env[x[2]] = np.array([0, 2, 3, 4, 5])
             try:
                 got = np.atleast_2d(np.asarray(cev(t, env), dtype=float))
             except Exception:  # noqa
